@@ -396,34 +396,23 @@ func burnAccumulates(r *Run, rule string) {
 			continue
 		}
 		recv := ci.Call.Args[0]
-		// look through the load of the local the two alternatives are merged in
-		okSel := false
-		if phi, isPhi := recv.(*ssa.Phi); isPhi {
-			okSel = true
-			for i, e := range phi.Edges {
-				t := P.TermAt(e, phi).String()
-				p := phi.Block().Preds[i]
-				k := 0
-				for j, s := range p.Succs {
-					if s == phi.Block() {
-						k = j
-					}
-				}
-				gs := P.EdgeGuards(p, k)
-				found, _ := HasAtom(gs, `^`+q(get+"#1")+`$`)
-				notFound, _ := HasAtom(gs, `^!`+q(get+"#1")+`$`)
-				switch {
-				case t == "types.ZeroDec()":
-					if !notFound {
-						okSel = false
-					}
-				case t == get+"#0":
-					if !found {
-						okSel = false
-					}
-				default:
+		// the receiver's alternatives (a merged local, or the result of a selecting helper) and their guards
+		alts := P.Alternatives(recv, c)
+		okSel := len(alts) == 2
+		for _, a := range alts {
+			found, _ := HasAtom(a.G, `^`+q(get+"#1")+`$`)
+			notFound, _ := HasAtom(a.G, `^!`+q(get+"#1")+`$`)
+			switch t := a.T.String(); {
+			case t == "types.ZeroDec()":
+				if !notFound {
 					okSel = false
 				}
+			case t == get+"#0":
+				if !found {
+					okSel = false
+				}
+			default:
+				okSel = false
 			}
 		}
 		r.Check(okSel, rule, "BurnValidator/zero-iff-not-found", P.InstrPos(c), "queued value when found, ZeroDec() when not", "BurnValidator adds the severity to "+oneLine(P.TermAt(recv, c).String())+": the queued burn is used when it was NOT found (a nil Dec) or discarded when it was found")
